@@ -339,17 +339,21 @@ def _relocate(nodes, at):
                 x.end_col_offset = getattr(at, "end_col_offset", 0)
 
 
-def _as_expression(body):
-    """`return E`  |  `if T: return A` ... `return B`  ->  one expression (conditional expressions), else None"""
-    if len(body) == 1 and isinstance(body[0], ast.Return) and body[0].value is not None:
-        return body[0].value
-    if body and isinstance(body[0], ast.If) and len(body[0].body) == 1 and isinstance(body[0].body[0], ast.Return) and body[0].body[0].value is not None:
-        rest = body[0].orelse if body[0].orelse else body[1:]
-        if body[0].orelse and body[1:]:
+def _as_expression(body, cont=None):
+    """A statement list made of `return E` and (nested) `if` statements whose branches end in returns, read as one
+    conditional expression; `cont` is the value of falling off the end of the list.  None when it is not of that form."""
+    if not body:
+        return cont
+    first, rest = body[0], body[1:]
+    if isinstance(first, ast.Return):
+        return first.value
+    if isinstance(first, ast.If):
+        after = _as_expression(list(rest), cont)
+        then = _as_expression(list(first.body), after)
+        other = _as_expression(list(first.orelse), after) if first.orelse else after
+        if then is None or other is None:
             return None
-        other = _as_expression(list(rest))
-        if other is not None:
-            return ast.IfExp(test=body[0].test, body=body[0].body[0].value, orelse=other)
+        return ast.IfExp(test=first.test, body=then, orelse=other)
     return None
 
 
